@@ -52,6 +52,8 @@ fi
 git checkout -q -- go.sum etcd/go.sum 2>/dev/null
 mkdir -p /tmp/seedverif.$$; cp /verif/known_findings.json /tmp/seedverif.$$/
 echo "== checks against patched tree"
-out=$(${RGCHECK:-/verif/bin/rgcheck} -prop all -repo $WT -verif /tmp/seedverif.$$ 2>&1)
+GCSEED=/tmp/rg_gocache_seed; [ -d $GCSEED ] || GOCACHE=$GCSEED RG_WORK=/tmp/seedwork.$$ /verif/bin/rgcheck -prop C04 -repo /repo -verif /tmp/seedverif0.$$ >/dev/null 2>&1; rm -rf /tmp/seedwork.$$ /tmp/seedverif0.$$ /tmp/seedgc.$$; cp -al $GCSEED /tmp/seedgc.$$
+out=$(GOCACHE=/tmp/seedgc.$$ ${RGCHECK:-/verif/bin/rgcheck} -prop all -repo $WT -verif /tmp/seedverif.$$ 2>&1)
 echo "$out" | awk '/^property=/{p=$1; sub("property=","",p)} /^  /{lines[p]=lines[p] "\n" substr($0,1,260)} /^VIOLATION/{v=$2; sub("property=","",v); print "FIRED " v; n=split(lines[v],a,"\n"); for(i=2;i<=n&&i<=5;i++) print a[i]}'
+rm -rf /tmp/seedgc.$$
 echo "== done"
